@@ -51,7 +51,7 @@ namespace bxdecay0 {
         -0.960289856497536232,
         -0.796666477413626740,
         -0.525532409916328986,
-        -0.18343464245649805,
+        -0.183434642495649805,
         0.183434642495649805,
         0.525532409916328986,
         0.796666477413626740,
